@@ -20,15 +20,19 @@ EXPLANATION = (
     "built-in table, raise when nothing is found (binding energy), and never cache the looked-up value in the instance; R5 scaling signature "
     "(DESIGN Appendix E): in the canonical product of each law, descending into the taken arm of `c ? x : 0.0`, the physically fixed "
     "dependences are present with the right exponent and sign, whatever model-specific prefactors surround them, and every model switch "
-    "multiplies its own process only.")
+    "multiplies its own process only; R6 the C constant eb_<alias> those templates read is defined for every surface species from that "
+    "species' own binding energy, printed unformatted.")
 ASSUMPTIONS = [
     "numerical prefactors and model-specific coverage factors of Hasegawa & Herbst 1993 / Roberts et al. 2007 are NOT decided (needs an independent transcription of the models)",
     "registry closure of the symbols used is C10",
 ]
-ENGINES = ["pymodel", "valueflow", "calg", "ratemodel"]
+ENGINES = ["pymodel", "valueflow", "calg", "ratemodel", "jmodel"]
 
 SPECIES = "naunet/species.py"
 REAC = ("param", "reac")
+
+
+GRAIN_REACTANT = {"rate_recombination", "rate_electron_capture"}     # reactions with the grain itself among the reactants
 
 
 def name_hole(ir):
@@ -69,7 +73,7 @@ def species_role(s):
         c = s[1]
         tg, it, ifs = c[3][0]
         if it == ("attr", REAC, "reactants") and c[2] == tg and len(ifs) == 1 and ifs[0] == ("unop", "Not", ("attr", tg, "is_grain")):
-            return "s"
+            return "ng"
     if any(x == ("attr", REAC, "products") for x in walk(s)):
         return "PRODUCT"
     return None
@@ -121,7 +125,7 @@ ACCRETION = [("all", "alpha", 1), ("all", "R_temperature", Fraction(1, 2)), ("al
 SIG = {
     ("Grain", "rate_depletion"): ACCRETION + [("all", "S_grain_radius", 2), ("all", "S_grain_density", 1)],
     ("HH93Grain", "rate_depletion"): ACCRETION + [("all", "S_grain_radius", 2), ("all", "S_grain_density", 1), ("all", "S_freeze_option", 1)],
-    ("HH93Grain", "rate_recombination"): [("all", "alpha", 1), ("all", "S_grain_density", 1), ("some", {"R_temperature": Fraction(1, 2), "A_s": Fraction(-1, 2), "S_grain_radius": 2})],
+    ("HH93Grain", "rate_recombination"): [("all", "alpha", 1), ("all", "S_grain_density", 1), ("some", {"R_temperature": Fraction(1, 2), "A_ng": Fraction(-1, 2), "S_grain_radius": 2})],
     ("HH93Grain", "rate_thermal_desorption"): [("exp", "-eb_alias_s/R_dust_temperature"), ("all", "eb_alias_s", Fraction(1, 2)), ("all", "A_s", Fraction(-1, 2)),
                                                ("all", "S_thermal_desorption_option", 1)],
     ("RR07XGrain", "rate_thermal_desorption"): [("exp", "-eb_alias_s/R_dust_temperature"), ("all", "eb_alias_s", Fraction(1, 2)), ("all", "A_s", Fraction(-1, 2)),
@@ -152,6 +156,41 @@ def check(ctx):
     _r1(ctx, rm, pkg)
     _r2_r5(ctx, rm, pkg)
     _r3(ctx, pkg)
+    _r6(ctx)
+
+
+CONST_C = "naunet/templates/base/cpp/src/naunet_constants.cpp.j2"
+CONST_H = "naunet/templates/base/cpp/include/naunet_constants.h.j2"
+
+
+def _r6(ctx):
+    """The templates that say `eb_<alias>` read a C constant: it must be defined, for every ice species, from the SAME species'
+    binding energy, printed as Python prints the float (repr round-trips; a format filter rounds)."""
+    from .. import jmodel as J
+    n = 0
+    for rel, need_value in ((CONST_C, True), (CONST_H, False)):
+        ctx.saw(rel)
+        loops = [it for it, _ in J.walk_items(J.flatten(ctx.tree, rel, {})) if it[0] == "for" and any(x[0] == "text" and x[1].rstrip().endswith("eb_") for x in it[3])]
+        if len(loops) != 1:
+            ctx.missing("R6", f"{rel}:eb_ loop", (rel, 0), f"expected one loop emitting eb_<alias>, found {len(loops)}")
+            continue
+        lp = loops[0]
+        var, it_, body = lp[1], lp[2], lp[3]
+        n += 1
+        k = f"{rel.rsplit('/', 1)[1]}:eb_"
+        dom_ok = it_ == ("filter", "selectattr", ("attr", ("name", "network"), "species"), (("const", "is_surface"),), ()) or it_ == ("attr", ("name", "network"), "species")
+        ctx.check(dom_ok and lp[7] is None, "R6", f"{k}:every ice species", (rel, lp[5]), "one constant per surface species of the network", expected="network.species | selectattr('is_surface')", found=J.show(it_))
+        idx = [i for i, x in enumerate(body) if x[0] == "text" and x[1].rstrip().endswith("eb_")][0]
+        name = body[idx + 1] if idx + 1 < len(body) else None
+        ctx.check(name is not None and name[0] == "out" and name[1] == ("attr", var, "alias"), "R6", f"{k}:name", (rel, lp[5]), "the constant is named after the loop species' alias",
+                  expected="eb_{{ s.alias }}", found=J.show(name[1]) if name and name[0] == "out" else str(name)[:60])
+        if need_value:
+            val = body[idx + 3] if idx + 3 < len(body) and body[idx + 2][0] == "text" and body[idx + 2][1].strip() == "=" else None
+            good = val is not None and val[0] == "out" and val[1] in (("attr", var, "eb"), ("attr", var, "binding_energy"))
+            ctx.check(good, "R6", f"{k}:value", (rel, lp[5]), "the value is the same species' binding energy, printed unrounded" if good else
+                      "the constant is not the loop species' binding energy printed as-is (a filter/format rounds or another value is printed): rates reading eb_<alias> differ from those inlining the value",
+                      expected="{{ s.eb }}", found=J.show(val[1]) if val is not None and val[0] == "out" else str(val)[:80])
+    ctx.floor("R6", "eb_ loops", n, 2)
 
 
 def _r1(ctx, rm, pkg):
@@ -248,12 +287,16 @@ def _r2_r5(ctx, rm, pkg):
             vkey = f"{cls}.{mname}#{vi}"
             # ---- R2
             bad_roles = [r for r in roles if r == "PRODUCT"]
-            allowed = {"s"} if mname != "_rate_surface" else {"s1", "s2"}
+            # 's' = reactants[0] by position, 'ng' = the unique non-grain reactant.  A reaction WITH a grain among its
+            # reactants (GRAIN- + X+) has no fixed reactant order (the naunet writer sorts by name): position is not the ion.
+            allowed = {"s1", "s2"} if mname == "_rate_surface" else {"ng"} if mname in GRAIN_REACTANT else {"s", "ng"}
             wrong = [r for r in roles if r not in allowed and r != "PRODUCT"]
             ctx.check(not bad_roles and not wrong and not unknown, "R2", f"{vkey}:species", (v.file, v.line),
                       f"species data come from {sorted(roles) or 'no species'} = the reacting species" if not (bad_roles or wrong or unknown) else
-                      ("a product's data are used in the rate" if bad_roles else f"unexpected species role {wrong} / unrecognised holes {unknown}"),
-                      expected="reac.reactants[0] (both reactants for surface reactions)", found=txt[:120])
+                      ("a product's data are used in the rate" if bad_roles else
+                       "the species is taken by POSITION in a reaction whose reactants include the grain: listed grain-first, the grain's mass number (0) enters the rate"
+                       if mname in GRAIN_REACTANT and wrong == ["s"] else f"unexpected species role {wrong} / unrecognised holes {unknown}"),
+                      expected="the non-grain reactant ([s for s in reac.reactants if not s.is_grain])" if mname in GRAIN_REACTANT else "reac.reactants[0] (both reactants for surface reactions)", found=txt[:120])
             if unknown:
                 continue
             # ---- R5
@@ -368,6 +411,10 @@ HH = "naunet/grains/hh93grain.py"
 RR = "naunet/grains/rr07grain.py"
 GR = "naunet/grains/grain.py"
 MUTANTS = [
+    {"name": "eb-const-rounded", "file": CONST_C, "old": "{{ s.eb }}", "new": '{{ "%.1f" | format(s.eb) }}', "rules": ["R6"]},
+    {"name": "eb-const-int", "file": CONST_C, "old": "{{ s.eb }}", "new": "{{ s.eb | int }}", "rules": ["R6"]},
+    {"name": "eb-const-not-for-all-ice", "file": CONST_C, "old": '{% for s in network.species | selectattr("is_surface") -%}\n{{ spec }} double eb_', "new": '{% for s in network.species | selectattr("is_surface") | rejectattr("is_atom") -%}\n{{ spec }} double eb_', "rules": ["R6"]},
+    {"name": "recombination-ion-by-position", "file": "naunet/grains/hh93grain.py", "old": "        [spec] = [s for s in reac.reactants if not s.is_grain]\n", "new": "        spec = reac.reactants[0]\n", "rules": ["R2"]},
     {"name": "spec-from-products", "file": HH, "old": "        spec = reac.reactants[0]\n        rate = \" * \".join(\n            [\n                f\"{opt_thd} * {cov}\",", "new": "        spec = reac.products[0]\n        rate = \" * \".join(\n            [\n                f\"{opt_thd} * {cov}\",", "rules": ["R2"]},
     {"name": "base-returns-empty", "file": GR, "old": "            raise ValueError(\"Number of species in H2 desoprtion should be 1.\")\n\n        return NotImplemented", "new": "            raise ValueError(\"Number of species in H2 desoprtion should be 1.\")\n\n        return \"\"", "rules": ["R1"]},
     {"name": "super-call-removed", "file": RR, "old": "    def rate_h2_desorption(self, reac: Reaction) -> str:\n        super().rate_h2_desorption(reac)\n", "new": "    def rate_h2_desorption(self, reac: Reaction) -> str:\n", "rules": ["R1"]},
